@@ -533,6 +533,11 @@ def mon_c09(tr, actor="A", cap=None):
     for o in tr.ops().values():
         if o["op"][0] in ("tell", "ask", "stop") and o["op"][1] == actor and o["done"] is None:
             ex.check("C09", ch.closed or ch.free == 0 or o["op"][0] == "ask", "%s is pending at quiescence although the mailbox has a free slot" % (o["op"],))
+            # room in the buffer that is neither free nor used: a slot handed to a parked sender
+            # that does not use it (e.g. one that waits for several slots at once)
+            accepted = any(e["ev"] == "accepted" and e["chan"] == "mailbox:" + actor and (tr.mid(e) == o["op"][2] if len(o["op"]) > 2 else e.get("what") == "stop") for e in tr.ev[o["start"]:])
+            if not accepted and cap is not None:
+                ex.check("C09", ch.closed or len(ch.buf) >= cap, "%s is still waiting at quiescence although the mailbox holds only %d of %d messages" % (o["op"], len(ch.buf), cap))
     # full mailbox => wait, not fail/drop: no Err(Send) while the actor is alive and the mailbox open
     t = tr.actor_task(actor)
     for o in tr.ops().values():
